@@ -48,12 +48,12 @@ class Gen:
     self.uid += 1
     return self.uid
 
-  def spec(self, nin, nout, depth, k=None, feat=None, mport=None):
+  def spec(self, nin, nout, depth, k=None, feat=None, mport=None, rin=False):
     rng = self.rng
     feat = feat or self.feat
     s = {'uid': self.new_uid(), 'ph': False, 'nin': nin, 'nout': nout, 'k': rng.randint(0, 9) if k is None else k,
          'wires': [], 'mport': (rng.random() < feat.get('mport', 0.2)) if mport is None else mport, 'caller': None, 'items': [],
-         'conns': [], 'consts': [], 'uu': [], 'rdu': [], 'wru': [], 'mcs': []}
+         'conns': [], 'consts': [], 'uu': [], 'rdu': [], 'wru': [], 'mcs': [], 'rin': rin}
     avail = [[[], f'in{i}'] for i in range(nin)]
     nblk = rng.randint(0, 3)
     nkid = 0 if depth <= 0 else rng.choice([0, 1, 1, 2, 2, 3])
@@ -79,8 +79,17 @@ class Gen:
 
     def add_kid(slot):
       cin, cout = rng.randint(1, 2), rng.randint(1, 2)
-      if rng.random() < feat.get('ph', 0.12): sub = self.placeholder(cin, cout)
-      else: sub = self.spec(cin, cout, depth - 1, feat=feat)
+      has_rin = rng.random() < feat.get('rin', 0.35)
+      if rng.random() < feat.get('ph', 0.12): sub = self.placeholder(cin, cout, has_rin)
+      else: sub = self.spec(cin, cout, depth - 1, feat=feat, rin=has_rin)
+      if has_rin:
+        # an ordinary 1-bit input of the child (sync clear) tied by the parent to its own reset / clk / clear input
+        r = rng.random()
+        port = [[slot], 'rin']
+        if r < 0.6: connect(port, [[], 'reset'])
+        elif r < 0.75: connect(port, [[], 'clk'])
+        elif r < 0.9: connect(port, [[], 'rin' if s['rin'] else 'reset'])
+        else: s['consts'].append([port, rng.randint(0, 1)])
       for i in range(cin):
         port = [[slot], f'in{i}']
         r = rng.random()
@@ -135,11 +144,15 @@ class Gen:
       elif r < 0.85: new_blk('comb', [port])
       elif r < 0.97: new_blk('ff', [port])
       else: new_blk('once', [port])
+    if s['rin']:
+      bl = [it for it in s['items'] if it['t'] == 'blk' and it['writes']]
+      ffs = [it for it in bl if it['kind'] == 'ff']
+      if bl: rng.choice(ffs or bl)['rin'] = True       # this block clears what it writes while s.rin is high
     self.constraints(s, feat)
     return s
 
-  def placeholder(self, nin, nout):
-    return {'uid': self.new_uid(), 'ph': True, 'nin': nin, 'nout': nout, 'k': self.rng.randint(0, 9), 'wires': [],
+  def placeholder(self, nin, nout, rin=False):
+    return {'rin': rin, 'uid': self.new_uid(), 'ph': True, 'nin': nin, 'nout': nout, 'k': self.rng.randint(0, 9), 'wires': [],
             'mport': False, 'caller': None, 'items': [], 'conns': [], 'consts': [], 'uu': [], 'rdu': [], 'wru': [], 'mcs': []}
 
   def constraints(self, s, feat):
@@ -221,6 +234,7 @@ def class_source(spec, sfx, out):
   L = [f'class {cname(spec, sfx)}( {"Placeholder, " if spec.get("ph") else ""}Component ):', '  def construct( s, k=1 ):']
   if spec['mport'] or spec.get('nbifc'): L.append('    s.cnt = 0')
   for i in range(spec['nin']): L.append(f'    s.in{i} = InPort( Bits8 )')
+  if spec.get('rin'): L.append('    s.rin = InPort( Bits1 )')
   for i in range(spec['nout']): L.append(f'    s.out{i} = OutPort( Bits8 )')
   for w in spec['wires']: L.append(f'    s.{w} = Wire( Bits8 )')
   if spec.get('kconst'): L += ['    s.kc = Wire( Bits8 )', '    s.kc //= k']
@@ -247,7 +261,8 @@ def class_source(spec, sfx, out):
     body = []
     for n, w in enumerate(it['writes']):
       terms = [pyref(r) for r in it['reads']] + [f'(k + {n})'] + (['Bits8( s.cnt )'] if it.get('pub') else [])
-      body.append(f'{pyref(w)} {asg} ' + f' {it["op"]} '.join(terms))
+      line = f'{pyref(w)} {asg} ' + f' {it["op"]} '.join(terms)
+      body += [f'if s.rin: {pyref(w)} {asg} 0', f'else: {line}'] if it.get('rin') else [line]
     if it.get('body'): body = list(it['body'])
     if it.get('calls_cp'): body.append('s.cp()')
     for r in it.get('mcalls', []): body.append(pyref(r) + '()')
@@ -311,7 +326,7 @@ def eff_k(spec, path, params):
 
 def hier(spec, pre=(), params=(), base=()):
   """[(path, comp)] for the driver: sigs mports blks uu rdu wru mcs conns consts"""
-  sigs = [['clk', 'in'], ['reset', 'in']] + [[f'in{i}', 'in'] for i in range(spec['nin'])] + \
+  sigs = [['clk', 'in'], ['reset', 'in']] + ([['rin', 'in']] if spec.get('rin') else []) + [[f'in{i}', 'in'] for i in range(spec['nin'])] + \
          [[f'out{i}', 'out'] for i in range(spec['nout'])] + [[w, 'wire'] for w in spec['wires']] + \
          ([['kc', 'wire']] if spec.get('kconst') else [])
   mports = ([['ping', 'callee']] if spec['mport'] else []) + ([['cp', 'caller']] if spec.get('caller') else [])
@@ -320,7 +335,8 @@ def hier(spec, pre=(), params=(), base=()):
     if it['t'] != 'blk': continue
     calls = ([[[], 'f_' + it['name']]] if it['func'] else []) + ([[[], 'cp']] if it.get('calls_cp') else []) + \
             it.get('mcalls', [])
-    blks.append([it['name'], {'comb': 0, 'ff': 1, 'once': 2}[it['kind']], it['reads'], it['writes'], calls])
+    blks.append([it['name'], {'comb': 0, 'ff': 1, 'once': 2}[it['kind']], it['reads'] + ([[[], 'rin']] if it.get('rin') else []),
+                 it['writes'], calls])
   conns = list(spec['conns'])
   for slot, _ in kids(spec):
     conns.append([[[slot], 'clk'], [[], 'clk']])
